@@ -35,6 +35,7 @@ def main():
     ap.add_argument("--tier", default="quick")
     ap.add_argument("--keep-as", default="")
     ap.add_argument("--skip-demo", action="store_true")
+    ap.add_argument("--base", default="c087909", help="fallback base commit when the patch does not apply to HEAD")
     a = ap.parse_args()
     seed = os.path.abspath(a.seed)
     tag = re.sub(r"[^A-Za-z0-9]+", "-", seed.strip("/"))[-24:]
@@ -53,6 +54,14 @@ def main():
             rep["demo_clean_tail"] = (p.stdout + p.stderr)[-300:]
             rep["demo_clean_s"] = round(time.time() - t0, 1)
         p = sh(["git", "-C", wt, "apply", os.path.join(seed, "patch.diff")])
+        rep["base"] = "HEAD"
+        if p.returncode != 0:
+            # the patch was written against the tree before a later fix: commit touched the same lines: judge it on that tree
+            sh(["git", "-C", "/repo", "worktree", "remove", "--force", wt])
+            shutil.rmtree(wt, ignore_errors=True)
+            sh(["git", "-C", "/repo", "worktree", "add", "--detach", wt, a.base])
+            rep["base"] = a.base
+            p = sh(["git", "-C", wt, "apply", os.path.join(seed, "patch.diff")])
         rep["apply_rc"] = p.returncode
         if p.returncode != 0:
             rep["apply_err"] = p.stderr[-300:]
@@ -94,7 +103,7 @@ def main():
                     meta = {"raw": open(mp).read()[:2000]}
             meta["confirmed_by_harness_author"] = {
                 "demo_clean_rc": rep.get("demo_clean_rc"), "demo_patched_rc": rep.get("demo_patched_rc"),
-                "tests_summary": rep.get("tests_summary"), "checks_quick": {k: {"fired": v["fired"], "clauses": v["clauses"]} for k, v in rep["checks"].items()},
+                "tests_summary": rep.get("tests_summary"), "applied_to": rep.get("base"), "checks_quick": {k: {"fired": v["fired"], "clauses": v["clauses"]} for k, v in rep["checks"].items()},
                 "how": "tools/seedtest.py: scratch git worktree of /repo HEAD under /tmp, demo on clean and patched tree, repository test-suite on the patched tree, checks via VERIF_REPO",
             }
             json.dump(meta, open(os.path.join(dst, "meta.json"), "w"), indent=1)
